@@ -16,10 +16,11 @@ import (
 const raHeader = "##! Please refer to the documentation at\n##! https://coreruleset.org/docs/development/regex_assembly/.\n"
 
 type fmtCase struct {
-	Content  string `json:"content"`
-	Lane     string `json:"lane"`     // structured | hostile | bytes
-	Balanced bool   `json:"balanced"` // block markers balance and every directive is well formed: the exact layout model applies
-	Lint     bool   `json:"lint"`     // i flag + upper-case class: --check is only required to fail
+	Content  string      `json:"content"`
+	Lane     string      `json:"lane"`         // structured | hostile | bytes
+	Balanced bool        `json:"balanced"`     // block markers balance and every directive is well formed: the exact layout model applies
+	Lint     bool        `json:"lint"`         // i flag + upper-case class: --check is only required to fail
+	IO       *ioScenario `json:"io,omitempty"` // C10: an I/O-fault scenario (the other fields are unused then)
 }
 
 // fmtModel computes the canonical layout for structured (balanced, well-formed) content.
@@ -463,6 +464,9 @@ func c09Check(env *core.Env, cc core.Case) core.Verdict {
 
 func c10Check(env *core.Env, cc core.Case) core.Verdict {
 	c := cc.(*fmtCase)
+	if c.IO != nil {
+		return ioScenarioCheck(env, "C10", c.IO)
+	}
 	root := emptyRoot(env)
 	defer rmCase(root)
 	if err := fmtTree(c).Write(root); err != nil {
@@ -609,8 +613,14 @@ func init() {
 		ID:    "C10",
 		Level: "exploration",
 		Rule: "the same three lanes of .ra contents as C09 (the hostile lane carries comment lines that look like directives, text before a directive, block starts with extra words or glued keywords, unbalanced and decorated end markers, directives with surplus or missing arguments). " +
-			"Oracle: `regex generate` on the file before and after `regex format` gives byte-identical stdout and the same success/failure; the sequence of lines with all white space removed is identical apart from the added header and removed trailing blank lines; a refused file stays untouched. Non-trivial = >= 2 non-blank lines and the file was changed.",
-		Cases:         func(env *core.Env, rng *rand.Rand) []core.Case { return fmtCases(env, rng, 1000, 8000) },
+			"Oracle: `regex generate` on the file before and after `regex format` gives byte-identical stdout and the same success/failure; the sequence of lines with all white space removed is identical apart from the added header and removed trailing blank lines; a refused file stays untouched. Non-trivial = >= 2 non-blank lines and the file was changed. Plus I/O-fault scenarios (iofault.go): every read - or every read but the first - of one file longer than two buffers fails with EIO (strace injection): the command must fail without printing or writing a partial result, or what it produced must be the complete result.",
+		Cases: func(env *core.Env, rng *rand.Rand) []core.Case {
+			cs := fmtCases(env, rng, 1000, 8000)
+			for _, sc := range ioCases("C10") {
+				cs = append(cs, &fmtCase{Lane: "io", IO: sc})
+			}
+			return cs
+		},
 		Check:         c10Check,
 		Decode:        decoder[fmtCase](),
 		MinNontrivial: 60,
